@@ -1817,8 +1817,30 @@ def execute(trace):
             "states": sorted(sim.states), "sim_time_us": sim.sim_time_us}
 
 
+def gen_hostzone(rng, index):
+    """A random history run in an interpreter that was STARTED in a zone
+    that is not UTC (the library imported under it); the simulated world
+    starts in the same zone, moves away and comes back."""
+    trace = gen_random(rng, index)
+    west = kernel.HOST_ZONES_WEST[index % len(kernel.HOST_ZONES_WEST)]
+    zones = [list(z) for z in trace["zones"]]
+    zones[0] = [west, west, 0]
+    steps = []
+    for i, step in enumerate(trace["steps"]):
+        steps.append(step)
+        if i % 5 == 4:
+            steps.append({"k": "pert", "act": ["tzset", 0]})
+            steps.append({"k": "pert", "act": ["dst", 0]})
+    trace.update(kind="hostzone", zones=zones, cur=0, isdst=0,
+                 host_tz=kernel.posix_tz(west), steps=steps)
+    return trace
+
+
 def check_trace_full(trace):
-    res = kernel.in_fresh_fork(execute, (trace,))
+    if trace.get("host_tz"):
+        res = kernel.run_in_host_zone(PROP, trace)
+    else:
+        res = kernel.in_fresh_fork(execute, (trace,))
     counters = dict(res["counters"])
     counters["simulated_time_covered_s"] = res["sim_time_us"] // 10 ** 6
     dig = kernel.digest([res["results"], res["violations"]])
@@ -1838,6 +1860,8 @@ def make_trace(job):
     rng = kernel.run_rng(PROP, seed, index, kind)
     if kind == "directed":
         return gen_directed(rng, index)
+    if kind == "hostzone":
+        return gen_hostzone(rng, index)
     return gen_random(rng, index)
 
 
@@ -1895,7 +1919,9 @@ def jobs_for(tier, seed):
         NOTATIONS_PER_TRACE)
     n_dir = n_chunks * (2 if tier == "quick" else 16)
     n = 2500 if tier == "quick" else 80000
-    return [("directed", seed, i) for i in range(n_dir)] + [
+    return [("hostzone", seed, i) for i in range(
+        20 if tier == "quick" else 600)] + [
+        ("directed", seed, i) for i in range(n_dir)] + [
         ("random", seed, i) for i in range(n)]
 
 
